@@ -31,6 +31,9 @@ var c03Trees = [][]extOp{
 	{{Attach: 6, Pred: 1}, {Attach: 7, Pred: 6}},    // png <- always ; pdf <- empty
 	{{Attach: 0, Pred: 8}},                          // root <- detector that calls SetLimit(0) and rejects
 	{{Attach: 2, Pred: 9}, {Attach: 0, Pred: 8}},    // text/plain <- SetLimit(5) rejects ; root <- SetLimit(0) rejects
+	// a chain of extensions below application/json: nodes at depth 3, 4 and 5
+	// (the built-in tree is three levels deep)
+	{{Attach: 4, Pred: 4}, {Attach: 8, Pred: 1, Aliases: 1}, {Attach: 8, Pred: 4}, {Attach: 8, Pred: 1, NoExt: true}},
 	// nodes that share their parent's MIME string (only the extension differs)
 	{{Attach: 2, Pred: 1, Same: true}, {Attach: 5, Pred: 1, Same: true}, {Attach: 0, Pred: 5, Same: true}}, // text/plain <- always ; text/xml <- always ; root <- contains NUL
 }
